@@ -27,7 +27,7 @@ def device_configs(behaviours: list[str]) -> list[tuple[str, bool, str]]:
     return [(a, pm, b) for a in ADDRS for pm in (False, True) for b in behaviours]
 
 
-TIMINGS = ["late", "first-with-con", "all-with-con"]
+TIMINGS = ["late", "first-with-con", "all-with-con", "refusals-with-con"]
 
 
 def run_write(pop: tuple[tuple[str, bool, str], ...], timing: str = "late", first: str | None = None) -> tuple[list[tuple[str, str]], str]:
@@ -38,6 +38,9 @@ def run_write(pop: tuple[tuple[str, bool, str], ...], timing: str = "late", firs
     progs = [d for d in devs if d.prog_mode]
     for d in progs[: 1 if timing == "first-with-con" else len(progs) if timing == "all-with-con" else 0]:
         d.fast = True
+    if timing == "refusals-with-con":
+        for d in devs:
+            d.fast = d.behaviour == "refuse"
     outcome = "?"
     with BusWorld(devs) as w:
         for call, target in enumerate(([first] if first else []) + [TARGET]):
@@ -175,6 +178,8 @@ def write_cases(thorough: bool) -> list[tuple[tuple[tuple[str, bool, str], ...],
         # response timing relative to the client's L_Data.con matters only for devices that answer the broadcast read
         for timing in TIMINGS[: 1 if nprog == 0 else 2 if nprog == 1 else 3]:
             out.append((pop, timing, None))
+        if any(b == "refuse" for _a, _pm, b in pop):
+            out.append((pop, "refusals-with-con", None))
         # history: an earlier call on the same XKNX object, to each pool address (populations of <= 2 devices, thorough 3)
         if 1 <= len(pop) <= (3 if thorough else 2):
             for first in ADDRS:
